@@ -267,8 +267,74 @@ def h_kernel(is_initiator, proto):
     return ['kernel', 'ok']
 
 
+NET_BASES = {4: ('0.0.0.0', '10.0.0.0', '128.0.0.0', '255.255.255.255', '0.0.0.1'),
+             6: ('::', '2001:db8::', '8000::', 'ffff:ffff:ffff:ffff:ffff:ffff:ffff:ffff', '::1', '::1:0:0', '0:0:1::')}
+
+
+def h_network(version):
+    """a selector built from a configured network denotes exactly that network again when it is turned back into the kernel's network/prefix form:
+    every prefix length x a set of base addresses (solver-driven case split; the stdlib network arithmetic runs concretely)"""
+    from symx import core
+    eng = core.engine()
+    TS = MODS['message'].TrafficSelector
+    bits = 32 if version == 4 else 128
+    bases = NET_BASES[version]
+    c1 = eng.sym_int('prefixlen', 0, bits)
+    plen = eng.concretize(c1, 0, bits) if not isinstance(c1, int) else c1
+    c2 = eng.sym_int('base', 0, len(bases) - 1)
+    base = int(ipaddress.ip_address(bases[eng.concretize(c2, 0, len(bases) - 1) if not isinstance(c2, int) else c2]))
+    mask = ((1 << bits) - 1) ^ ((1 << (bits - plen)) - 1)
+    net = ipaddress.IPv6Network((base & mask, plen)) if version == 6 else ipaddress.IPv4Network((base & mask, plen))
+    ts = TS.from_network(net, 0, TS.IpProtocol.ANY)
+    if ts.start_addr != net[0] or ts.end_addr != net[-1] or int(ts.ts_type) != (7 if version == 4 else 8):
+        return {'class': ['network'], 'violation': f'from_network({net}) gives the range {ts.start_addr} - {ts.end_addr} of type {int(ts.ts_type)}'}
+    back = ts.get_network()
+    if back != net or back.version != version:
+        return {'class': ['network'], 'violation': f'the selector of the configured network {net} is handed to the kernel as {back!r}'}
+    return ['network', 'ok']
+
+
+def h_responder_mode(sit, conf_mode):
+    """responder: a CREATE_CHILD_SA request (new CHILD_SA / rekey of an existing one) arrives with or without USE_TRANSPORT_MODE (arbitrary): a
+    CHILD_SA is installed only in the mode the policy prescribes"""
+    from symx import core
+    from . import world, c11
+    eng = core.engine()
+    m, ik = MODS['message'], MODS['ikesa']
+    p = world.Pair(mode=conf_mode)
+    req = p.to_state('A', 'NEW_CHILD_REQ_SENT' if sit == 'new' else 'REK_CHILD_REQ_SENT')
+    b = p.b
+    real_req = m.Message.parse(bytes(req), crypto=b.peer_crypto)
+    with_notify = eng.sym_bool('use_transport_mode')
+    enc = [x for x in real_req.encrypted_payloads
+           if not (x.type == m.Payload.Type.NOTIFY and x.notification_type == m.PayloadNOTIFY.Type.USE_TRANSPORT_MODE)]
+    if with_notify:
+        enc.append(m.PayloadNOTIFY(m.Proposal.Protocol.NONE, m.PayloadNOTIFY.Type.USE_TRANSPORT_MODE))
+    msg = m.Message(spi_i=b.spi_i, spi_r=b.spi_r, major=2, minor=0, exchange_type=36, is_response=False, can_use_higher_version=False,
+                    is_initiator=True, message_id=b.peer_msg_id, payloads=[], encrypted_payloads=enc)
+    msg.is_protected = True
+    n_log, n_kids = len(p.B.kernel.log), len(b.child_sas)
+    c11.MODS = MODS
+    c11.deliver_object(b, p.B, msg)
+    new = [x for x in p.B.kernel.log[n_log:] if x['op'] == 'NEWSA']
+    want_transport = (conf_mode == 'transport')
+    if new or len(b.child_sas) > n_kids:
+        if bool(with_notify) != want_transport:
+            return {'class': ['responder_mode'], 'violation': f'{sit}: the policy prescribes {conf_mode} mode, the request asked for '
+                                                              f'{"transport" if with_notify else "tunnel"} mode, and a CHILD_SA was installed'}
+        if any(int(x['mode']) != (0 if want_transport else 1) for x in new):
+            return {'class': ['responder_mode'], 'violation': f'{sit}: kernel SAs installed in another mode than the policy prescribes'}
+        return ['responder_mode', 'installed']
+    return ['responder_mode', 'refused']
+
+
 def build_instances(tier):
-    inst = [Instance(f'kernel SAs initiator={i} {pr}', h_kernel, (i, pr), must_reach=[('ok', lambda o: o == ['kernel', 'ok'])])
+    inst = [Instance(f'network <-> selector IPv{v}', h_network, (v,), engine_kw={'max_ticks': 10 ** 7}) for v in (4, 6)]
+    for sit in ('new', 'rekey'):
+        for cm in ('transport', 'tunnel'):
+            inst.append(Instance(f'responder mode {sit} policy={cm}', h_responder_mode, (sit, cm), native=common.native_of(h_responder_mode),
+                                 must_reach=[('installed', lambda o: o == ['responder_mode', 'installed']), ('refused', lambda o: o == ['responder_mode', 'refused'])]))
+    inst += [Instance(f'kernel SAs initiator={i} {pr}', h_kernel, (i, pr), must_reach=[('ok', lambda o: o == ['kernel', 'ok'])])
             for i in (True, False) for pr in ('esp', 'ah')]
     inst += [Instance(f'is_subset types={a},{b}', h_subset, (a, b),
                      must_reach=[('returns False', lambda o: o == ['subset', False])] +
@@ -300,7 +366,7 @@ def replay_file(path):
     """native replay of a selector counterexample: recompute is_subset and brute-force the packet semantics on the
     boundary packets of both selectors"""
     global MODS
-    if json.load(open(path)).get('instance', '').startswith(('initiator response', 'kernel SAs')):
+    if json.load(open(path)).get('instance', '').startswith(('initiator response', 'kernel SAs', 'network <->', 'responder mode')):
         return common.generic_replay_file(path, lambda: build_instances('thorough') + build_instances('quick'), _load_world_native)
     MODS = common.load_repo(shim=False)
     TS = MODS['message'].TrafficSelector
